@@ -35,7 +35,7 @@
 (* Generator (direction G).  State machine fam/val/stage: choose a flag    *)
 (* family, then a set of its members; val is the union.  Families in       *)
 (* ExhaustiveFams get EVERY subset of their members, the others every      *)
-(* union of at most two members, the empty set and the full set (the       *)
+(* union of at most Arity members, the empty set and the full set (the     *)
 (* harness adds seeded random sets).  Every reached (fam, val) is printed   *)
 (* as a SET tuple; the harness must record a flag-set row for each.        *)
 (* On every generated set TLC also checks ExactCover for a reference       *)
@@ -51,6 +51,7 @@ EXTENDS Integers, Sequences, FiniteSets, TLC, Json
 
 CONSTANTS MembersFile,      \* "" or NDJSON file of member rows (generator)
           ExhaustiveFams,   \* flag families whose every subset is generated
+          Arity,            \* the other flag families: unions of at most Arity (2 or 3) members
           RangeLimited      \* TRUE: reference printer as implemented (First..Last walk)
 
 SeqToSet(s) == {s[i] : i \in 1..Len(s)}
@@ -94,7 +95,8 @@ VARIABLES fam, val, stage
 vars == <<fam, val, stage>>
 Init == fam = "" /\ val = {} /\ stage = 0
 Sets(f) == IF f \in ExhaustiveFams THEN {UNION S : S \in SUBSET Members(f)}
-           ELSE {a \cup b : a, b \in Members(f)} \cup {{}, Full(f)}
+           ELSE (IF Arity >= 3 THEN {a \cup b \cup c : a, b, c \in Members(f)} ELSE {a \cup b : a, b \in Members(f)})
+                \cup {{}, Full(f)}
 Next == \/ stage = 0 /\ fam' \in Fams /\ stage' = 1 /\ UNCHANGED val
         \/ stage = 1 /\ val' \in Sets(fam) /\ stage' = 2 /\ UNCHANGED fam
 Spec == Init /\ [][Next]_vars
